@@ -168,7 +168,7 @@ static std::string run(const Sx& c) {
     for (auto p : covs) delete p;
     delete model;
   } else if (kind == 2) {
-    // (2 ndim order): acceptance of every structure in that space dimension
+    // (2 ndim order (codes to construct)): acceptance of every structure in that space dimension
     int ndim = (int) c[1].i();
     defineDefaultSpace(ESpaceType::RN, ndim);
     SpaceRN space(ndim);
@@ -180,7 +180,8 @@ static std::string run(const Sx& c) {
     bool first = true;
     auto it = ECov::getIterator();
     while (it.hasNext()) {
-      if (*it != ECov::UNKNOWN && *it != ECov::FUNCTION) {
+      bool wanted = false; for (auto& w : c[3].l) if (w.i() == it.getValue()) wanted = true;
+      if (*it != ECov::UNKNOWN && *it != ECov::FUNCTION && wanted) {
         int made = 0, cons = 0, finite = -1; std::string nm;
         try {
           CovAniso cv(*it, ctxt);
